@@ -310,7 +310,9 @@ Proof. split; vm_compute; reflexivity. Qed.
 End FarmC12.
 
 (** ** oracle.  [e] = the service module's request contexts (id -> state, batch counter) as the
-    chain in question knows them ([eA] on the exporting chain, [eB] on the importing one). *)
+    chain in question knows them ([eA] on the exporting chain, [eB] on the importing one).  The model carries
+    a switch for the repair "oracle InitGenesis keeps the order of a feed's exported values"; the tree under
+    check has it ([import true]); [import false] is the code as it was. *)
 Module OracleC12.
 Import Genesis.Oracle Genesis.OracleProofs.
 
@@ -321,9 +323,9 @@ Print Assumptions oracle_export_validates.
 
 (** import_total FAILS for a reachable state: InitGenesis panics when the new chain's service module does not
     know the feed's request context — which happens whenever the service genesis exported with it could not
-    be imported, i.e. whenever a feed is running (known finding oracle-import-panics/request-context-missing-...) *)
+    be imported, i.e. whenever a feed is running (known finding oracle-import-panics.request-context-missing-...) *)
 Theorem oracle_import_total_refuted :
-  exists eA eB s, invb s = true /\ validate (export eA s) = true /\ import eB (export eA s) = None.
+  exists eA eB s, invb s = true /\ validate (export eA s) = true /\ import true eB (export eA s) = None.
 Proof. exact oracle_import_total_refuted_lemma. Qed.
 Print Assumptions oracle_import_total_refuted.
 
@@ -331,31 +333,50 @@ Print Assumptions oracle_import_total_refuted.
 Theorem oracle_import_total_partial :
   forall (eA eB : env) (s : state),
     invb s = true -> (forall f, In f (feeds s) -> has (o_ctx (snd f)) eB = true) ->
-    import eB (export eA s) <> None.
-Proof. exact oracle_import_total_partial_reachable_lemma. Qed.
+    import true eB (export eA s) <> None.
+Proof. exact (oracle_import_total_partial_reachable_lemma true). Qed.
 Print Assumptions oracle_import_total_partial.
 
-(** export . import . export = export FAILS: InitGenesis stores every exported value of a feed under
-    the same key (the context's current batch counter), so one value survives — the oldest
-    (known finding oracle-feed-value-history-lost-on-import) *)
-Theorem oracle_export_fixpoint_refuted :
-  exists e s s', invb s = true /\ import e (export e s) = Some s' /\ export e s' <> export e s.
+(** the code as it was: InitGenesis stored every exported value of a feed under the same key, so one
+    value survived — the oldest (fixed; witness = corpus/C12/oracle-value-history-lost.jsonl) *)
+Theorem oracle_export_fixpoint_refuted_before_fix :
+  exists e s s', invb s = true /\ import false e (export e s) = Some s' /\ export e s' <> export e s.
 Proof. exact oracle_export_fixpoint_refuted_lemma. Qed.
-Print Assumptions oracle_export_fixpoint_refuted.
+Print Assumptions oracle_export_fixpoint_refuted_before_fix.
 
-Theorem oracle_queries_preserved_refuted :
-  exists e s s', invb s = true /\ import e (export e s) = Some s'
+Theorem oracle_queries_preserved_refuted_before_fix :
+  exists e s s', invb s = true /\ import false e (export e s) = Some s'
                  /\ values_of s 0 = [(4, 1700000020); (3, 1700000010)] /\ values_of s' 0 = [(3, 1700000010)].
 Proof. exact oracle_queries_preserved_refuted_lemma. Qed.
-Print Assumptions oracle_queries_preserved_refuted.
+Print Assumptions oracle_queries_preserved_refuted_before_fix.
 
-(** ... what does hold: the feeds themselves are preserved *)
-Theorem oracle_queries_preserved_partial :
-  forall (eA eB : env) (s s' : state),
-    invb s = true -> (forall f, In f (feeds s) -> has (o_ctx (snd f)) eA = true) ->
-    import eB (export eA s) = Some s' -> feeds s' = feeds s.
-Proof. exact oracle_feeds_preserved_lemma. Qed.
-Print Assumptions oracle_queries_preserved_partial.
+(** the repaired code, on a chain that knows the feeds' request contexts: export . import . export = export *)
+Theorem oracle_export_fixpoint :
+  forall (e : env) (s : state),
+    invb s = true -> (forall f, In f (feeds s) -> has (o_ctx (snd f)) e = true) ->
+    exists s', import true e (export e s) = Some s' /\ export e s' = export e s.
+Proof. exact oracle_export_fixpoint_lemma. Qed.
+Print Assumptions oracle_export_fixpoint.
+
+(** ... and the feeds and every feed's value history (newest first) read the same *)
+Theorem oracle_queries_preserved :
+  forall (e : env) (s s' : state),
+    invb s = true -> (forall f, In f (feeds s) -> has (o_ctx (snd f)) e = true) ->
+    import true e (export e s) = Some s' ->
+    feeds s' = feeds s /\ forall f, In f (feeds s) -> values_of s' (fst f) = values_of s (fst f).
+Proof. exact oracle_values_preserved_lemma. Qed.
+Print Assumptions oracle_queries_preserved.
+
+(** after PrepForZeroHeightGenesis (running feeds moved to the paused queue) the state is again a reachable-looking
+    one: the theorems above apply to it *)
+Theorem oracle_prep_keeps_invariant : forall s : state, invb s = true -> invb (prep s) = true.
+Proof. exact oracle_prep_inv_lemma. Qed.
+Print Assumptions oracle_prep_keeps_invariant.
+
+Example oracle_nonvacuous :
+  invb wit_s = true /\ import true wit_env (export wit_env wit_s) <> None
+  /\ values_of wit_s 0 = [(4, 1700000020); (3, 1700000010)].
+Proof. repeat split; vm_compute; try reflexivity; discriminate. Qed.
 End OracleC12.
 
 (** ** service.  Requests, responses, request queues, earned fees and volumes are documented as
@@ -437,6 +458,17 @@ Theorem htlc_queries_preserved :
 Proof. exact htlc_queries_preserved_lemma. Qed.
 Print Assumptions htlc_queries_preserved.
 
+(** after PrepForZeroHeightGenesis at block height [height] the state is again a reachable-looking one (so the
+    four theorems apply to it), provided no open contract has expired before [height]; the Go function
+    leaves the expiration queue stale, which InitGenesis repairs (see [htlc_queries_preserved]) *)
+Theorem htlc_prep_keeps_invariant :
+  forall (height : Z) (s : state),
+    invb true s = true -> 0 < height ->
+    forallb (fun e => negb (is_open (snd e)) || ((height <=? h_expiry (snd e)) && (h_expiry (snd e) <? two64))) (htlcs s) = true ->
+    invb true (prep height s) = true.
+Proof. exact htlc_prep_inv_lemma. Qed.
+Print Assumptions htlc_prep_keeps_invariant.
+
 (** REMARK, not a C12 violation: ValidateGenesis does not compare the supplies with the open transfers *)
 Theorem htlc_handmade_genesis_can_panic : exists g : genesis, validate true g = true /\ import true g = None.
 Proof. exact htlc_handmade_genesis_can_panic_lemma. Qed.
@@ -484,3 +516,137 @@ Print Assumptions mt_handmade_genesis_can_panic.
 Example mt_nonvacuous : invb wit_s = true /\ sup_of (bals wit_s) = [((1, 1), 12); ((1, 2), 0)].
 Proof. split; vm_compute; reflexivity. Qed.
 End MtC12.
+
+(** * C12 over HISTORIES of the message-level models (no free-standing invariant).
+
+    For record, coinswap, random and nft the reachability invariant [invb] is DERIVED from the other groups'
+    message-level models ([Genesis/Link<Mod>.v]): an abstraction [abs] maps a state of that model to the
+    genesis-level state (renaming ids by an injective numbering, sorting the stores the way the KV store
+    iterates), and [reachable_<mod>] proves [invb (abs (run h)) = true] for every history [h] from that
+    model's proved invariants (plus small extra invariants proved over its step function).  The C12
+    statements then quantify over histories. *)
+From Irismod Require Genesis.LinkRecord Genesis.LinkCoinswap Genesis.LinkRandom Genesis.LinkNft.
+
+Module LinkRecordC12.
+Import Genesis.LinkRecord.
+
+(** hypothesis: the id order [ord] separates the ids in the store (SHA-256 is collision-free on them) *)
+Theorem reachable_record :
+  forall (ord : G.rid -> Z) (steps : list M.step),
+    separates ord (map fst (M.store (M.run M.init steps))) ->
+    G.invb ord (abs ord (M.run M.init steps)) = true.
+Proof. exact LinkRecord.reachable_record. Qed.
+Print Assumptions reachable_record.
+
+Theorem record_history_export_validates :
+  forall (ord : G.rid -> Z) (steps : list M.step),
+    separates ord (map fst (M.store (M.run M.init steps))) ->
+    G.validate (G.export (abs ord (M.run M.init steps))) = true.
+Proof. exact LinkRecord.record_history_export_validates. Qed.
+Print Assumptions record_history_export_validates.
+
+Theorem record_history_import_total :
+  forall (ord : G.rid -> Z) (steps : list M.step),
+    separates ord (map fst (M.store (M.run M.init steps))) ->
+    G.import ord (G.export (abs ord (M.run M.init steps))) <> None.
+Proof. exact LinkRecord.record_history_import_total. Qed.
+Print Assumptions record_history_import_total.
+
+(** every record the history created is readable after export -> import under an id of the same record *)
+Theorem record_history_queries_partial :
+  forall (ord : G.rid -> Z) (steps : list M.step) (s' : G.state),
+    G.import ord (G.export (abs ord (M.run M.init steps))) = Some s' ->
+    forall id r, M.query (M.run M.init steps) id = Some r -> exists c, G.query s' (r, c) = Some r.
+Proof. exact LinkRecord.record_history_queries_partial. Qed.
+Print Assumptions record_history_queries_partial.
+End LinkRecordC12.
+
+Module LinkCoinswapC12.
+Import Genesis.LinkCoinswap.
+
+(** from the coinswap model's [Inv] and the lpt numbering [Dense] of the initial state; the parameters of the
+    initial state pass Params.Validate (the model has no parameter update); the sequence stays a uint64 *)
+Theorem reachable_coinswap :
+  forall (rk : Z -> Z), (forall a b, rk a = rk b -> a = b) -> (forall a, 0 <= rk a) ->
+  forall (s0 : M.state) (ms : list M.msg),
+    MV.Inv s0 -> Dense s0 -> G.params_ok (abs_params rk (M.par s0)) = true -> M.seq (M.run s0 ms) < G.two64 ->
+    G.invb (abs rk (M.run s0 ms)) = true.
+Proof. exact LinkCoinswap.reachable_coinswap. Qed.
+Print Assumptions reachable_coinswap.
+
+Theorem coinswap_history_roundtrip :
+  forall (rk : Z -> Z), (forall a b, rk a = rk b -> a = b) -> (forall a, 0 <= rk a) ->
+  forall (s0 : M.state) (ms : list M.msg),
+    MV.Inv s0 -> Dense s0 -> G.params_ok (abs_params rk (M.par s0)) = true -> M.seq (M.run s0 ms) < G.two64 ->
+    G.import (G.export (abs rk (M.run s0 ms))) = Some (abs rk (M.run s0 ms)).
+Proof. exact LinkCoinswap.coinswap_history_roundtrip. Qed.
+Print Assumptions coinswap_history_roundtrip.
+End LinkCoinswapC12.
+
+Module LinkRandomC12.
+Import Genesis.LinkRandom.
+
+(** [sane] is the random model's well-formedness of histories (block times non-zero, one request per consumer
+    and block where the harness needs it); no further hypothesis *)
+Theorem reachable_random :
+  forall (sha : M.hin -> Z) (P : Z -> bool) (tbl : list ((Z * Z) * Z)) (steps : list M.step),
+    MP.sane P [] steps -> G.invb tbl (abs tbl (M.run sha M.init steps)) = true.
+Proof. exact LinkRandom.reachable_random. Qed.
+Print Assumptions reachable_random.
+
+Theorem random_history_roundtrip :
+  forall (sha : M.hin -> Z) (P : Z -> bool) (tbl : list ((Z * Z) * Z)) (steps : list M.step),
+    MP.sane P [] steps ->
+    G.import tbl (G.export (abs tbl (M.run sha M.init steps))) = Some (abs tbl (M.run sha M.init steps)).
+Proof. exact LinkRandom.random_history_roundtrip. Qed.
+Print Assumptions random_history_roundtrip.
+End LinkRandomC12.
+
+Module LinkNftC12.
+Import Genesis.LinkNft.
+
+(** no hypothesis on the history at all *)
+Theorem reachable_nft :
+  forall (rkc rkt : Z -> Z), (forall a b, rkc a = rkc b -> a = b) ->
+  forall (blobc : M.class -> Z) (blobt : M.tmeta -> Z) (steps : list M.step),
+    G.invb (abs rkc rkt blobc blobt (M.run M.init steps)) = true.
+Proof. exact LinkNft.reachable_nft. Qed.
+Print Assumptions reachable_nft.
+
+Theorem nft_history_roundtrip :
+  forall (rkc rkt : Z -> Z), (forall a b, rkc a = rkc b -> a = b) ->
+  forall (blobc : M.class -> Z) (blobt : M.tmeta -> Z) (steps : list M.step),
+    G.import false (G.export (abs rkc rkt blobc blobt (M.run M.init steps)))
+    = Some (abs rkc rkt blobc blobt (M.run M.init steps)).
+Proof. exact LinkNft.nft_history_roundtrip. Qed.
+Print Assumptions nft_history_roundtrip.
+End LinkNftC12.
+
+(** * The checker never raises an alarm on observations that agree with the model
+    ([Genesis/PassCheck.v]): for every state satisfying the module's invariant, [check_<m>] applied to the run
+    the MODEL itself produces returns (-1, -1, 0). *)
+From Irismod Require Genesis.PassCheck.
+
+Theorem coinswap_model_passes_check :
+  forall s : Genesis.Coinswap.state, Genesis.Coinswap.invb s = true ->
+    Genesis.Coinswap.check_coinswap (Genesis.Coinswap.mkCase [PassCheck.PCoinswap.model_run s]) = (-1, -1, 0).
+Proof. exact PassCheck.PCoinswap.coinswap_model_passes_check. Qed.
+Print Assumptions coinswap_model_passes_check.
+
+Theorem nft_model_passes_check :
+  forall s : Genesis.Nft.state, Genesis.Nft.invb s = true ->
+    Genesis.Nft.check_nft (Genesis.Nft.mkCase [PassCheck.PNft.model_run s]) = (-1, -1, 0).
+Proof. exact PassCheck.PNft.nft_model_passes_check. Qed.
+Print Assumptions nft_model_passes_check.
+
+Theorem token_model_passes_check :
+  forall s : Genesis.Token.state, Genesis.Token.invb s = true ->
+    Genesis.Token.check_token (Genesis.Token.mkCase [PassCheck.PToken.model_run s]) = (-1, -1, 0).
+Proof. exact PassCheck.PToken.token_model_passes_check. Qed.
+Print Assumptions token_model_passes_check.
+
+Theorem random_model_passes_check :
+  forall (tbl : list ((Z * Z) * Z)) (h : Z) (s : Genesis.Random.state), Genesis.Random.invb tbl s = true ->
+    Genesis.Random.check_random (Genesis.Random.mkCase h tbl [PassCheck.PRandom.model_run s]) = (-1, -1, 0).
+Proof. exact PassCheck.PRandom.random_model_passes_check. Qed.
+Print Assumptions random_model_passes_check.
